@@ -14,6 +14,8 @@ NS_aX  == <<"a", "X">>
 NS_Xa  == <<"X", "a">>
 NS_aXb == <<"a", "X", "b">>
 NS_abXc == <<"a", "b", "X", "c">>
+NS_aXY  == <<"a", "X", "Y">>
+NS_aYXZ == <<"a", "Y", "X", "Z">>
 
 VarAtoms == {<<"var", NameSeq[i]>> : i \in DOMAIN NameSeq}
 Atoms == {<<"true">>, <<"false">>} \cup VarAtoms
